@@ -255,6 +255,10 @@ fn run_formula(tok: &[&str]) -> String {
             if mode == "parse" {
                 return format!("ok tree={} vars={} free={}", debug_tree(&pf.bdd), vars.join(","), free.join(","));
             }
+            if mode == "evalconst" {
+                let r = pf.eval();
+                return format!("ok {}", if r.is_false() { "constfalse" } else { "nonfalse" });
+            }
             if mode == "evalfree" {
                 // free-variable report plus: does the evaluated diagram mention only free variables?
                 let r = pf.eval();
